@@ -41,6 +41,8 @@ type c04Result struct {
 	seeds      []uint64
 }
 
+var c04PoolProbes atomic.Int64
+
 // c04Run executes history h under one variant.
 func c04Run(hseed int64, relaxed bool, v c04Variant) (*c04Result, error) {
 	old := runtime.GOMAXPROCS(v.procs)
@@ -79,6 +81,84 @@ func c04Run(hseed int64, relaxed bool, v c04Variant) (*c04Result, error) {
 				_ = wf.ps.NondeterministicFastCommit(3)
 				blobEncodeHook.Store((func(uint64) error)(nil))
 			}
+			// ... and commits that fail because a type info cannot be encoded: of a root array, of a root map, of an
+			// inlined child array and of an inlined child map (four different exits of the slab encoders)
+			const badType = 77771
+			for shape := 0; shape < 4; shape++ {
+				wt := NewWorld(hseed^0xaa, addrOf(97, 0))
+				rootTI, childTI := TI{ID: 6}, TI{ID: 7}
+				switch shape {
+				case 0, 1:
+					rootTI = TI{ID: badType}
+				default:
+					childTI = TI{ID: badType}
+				}
+				var root *Node
+				var err error
+				if shape%2 == 0 {
+					root, err = wt.NewRootArray(wt.addr, rootTI)
+				} else {
+					root, err = wt.NewRootMap(wt.addr, rootTI, nil)
+				}
+				if err != nil {
+					continue
+				}
+				wt.AddRoot(root)
+				for i := 0; i < 12 && err == nil; i++ {
+					val := &Node{Kind: KU64, U: uint64(i)}
+					if shape >= 2 && i%4 == 1 {
+						var cerr error
+						if shape == 2 {
+							val, cerr = wt.NewRootArray(wt.addr, childTI)
+						} else {
+							val, cerr = wt.NewRootMap(wt.addr, childTI, nil)
+						}
+						if cerr != nil {
+							break
+						}
+					}
+					if root.Kind == KArr {
+						err = wt.OpArrayAppend(root, val)
+					} else {
+						err = wt.OpMapSet(root, &Node{Kind: KU64, U: uint64(i)}, val)
+					}
+				}
+				tiFailID.Store(badType)
+				wt.led.inCommit = true
+				_ = wt.ps.FastCommit(3)
+				_ = wt.ps.NondeterministicFastCommit(2)
+				tiFailID.Store(0)
+			}
+		}
+		// POOL PROBE: straight after the failures (before a garbage collection empties the pools) a many-worker commit of a
+		// fresh state runs with yields inside Encode, so that encoder goroutines hold buffers while others start; a buffer
+		// that went back to its pool twice is handed to two workers and the registers differ from the sequential reference
+		for _, rel := range []bool{false, true} {
+			wp, _, err := c16State(hseed^0x5a5a, 60)
+			if err != nil {
+				return nil, err
+			}
+			want, err := sequentialCommit(wp.ps, wp.led.Snapshot())
+			if err != nil {
+				return nil, err
+			}
+			var mu sync.Mutex
+			blobEncodeHook.Store(jitterHook(rand.New(rand.NewSource(hseed^0x31)), &mu, 2))
+			wp.led.inCommit = true
+			if rel {
+				err = wp.ps.NondeterministicFastCommit(16)
+			} else {
+				err = wp.ps.FastCommit(16)
+			}
+			wp.led.inCommit = false
+			blobEncodeHook.Store((func(uint64) error)(nil))
+			if err != nil {
+				return nil, viol("pool-probe", "a 16-worker commit right after encoding failures elsewhere in the process failed: %v", err)
+			}
+			if regsDigest(wp.led.Snapshot()) != regsDigest(want) {
+				return nil, viol("pool-probe", "a 16-worker commit (relaxed %v) right after encoding failures elsewhere in the process differs from the single-goroutine encoding of the same slabs: %v", rel, diffRegs(want, wp.led.Snapshot()))
+			}
+			c04PoolProbes.Add(1)
 		}
 	}
 	if v.gcFirst {
@@ -279,6 +359,9 @@ func runC04(c *CaseCtx) *CaseResult {
 			return res
 		}
 		res.Obs["replicas"]++
+		if n := int(c04PoolProbes.Swap(0)); n > 0 {
+			res.Obs["pool-probes-after-encode-errors"] += n
+		}
 		// the deterministic commit issues writes and deletions in ascending (owner, index) order
 		for ci, log := range r.commitLogs {
 			var order []string
@@ -1339,11 +1422,11 @@ func init() {
 	}
 	register(&Prop{
 		ID: "C04", Level: "exploration", Run: runC04, Cases: cases(c04Histories*2, 801*3), MinNonTrivial: 8, Post: c04Post,
-		Rule: "each of 161 (quick) / 801 (thorough) seeded histories over 4 owner addresses (two differing only in the last byte, one with a high first byte, slab indexes starting just below 255 / 65535 / 2^32), nested inlined children, composite-typed maps, deletions, a reload point, is executed as replicas that vary worker count {1,2,3,8,64}, GOMAXPROCS {1,2,16}, scheduling jitter in ledger calls, object-pool state (GC twice / unrelated work first, including commits that fail while encoding) " +
+		Rule: "each of 161 (quick) / 801 (thorough) seeded histories over 4 owner addresses (two differing only in the last byte, one with a high first byte, slab indexes starting just below 255 / 65535 / 2^32), nested inlined children, composite-typed maps, deletions, a reload point, is executed as replicas that vary worker count {1,2,3,8,64}, GOMAXPROCS {1,2,16}, scheduling jitter in ledger calls, object-pool state (GC twice / unrelated work first, including commits that fail while encoding an element or the type info of a root / inlined array / map, each followed by a pool probe: a 16-worker commit with yields inside Encode compared with the single-goroutine encoding) " +
 			"and PROCESS (the same history runs in 2 (quick) / 3 (thorough) different worker processes, 3 replicas each). Every other history keeps a scratch container at the temporary address (its slabs stay pending among the owned ones) and operations 110-139 are each followed by a commit (write sets with <= 1 modified slab plus deletions); each history is also run once with the OTHER commit flavour: final registers, map seeds and the per-commit multisets of writes must be equal. Compared: for the deterministic commit the exact sequence of ledger writes/deletes (id, length, content hash) of every commit and strict ascending (owner bytes, index bytes) order; for the relaxed commit the multiset of writes; final registers byte-for-byte; map seeds. " +
 			"non-trivial = a commit with >=8 writes over >=2 owners incl. >=1 deletion was compared; distinct by (history, process group, digest)",
 		Assumptions: []string{"'all interleavings / all map iteration orders' is sampled by repetition across replicas and processes, not enumerated"},
-		Mandatory:   []string{"replicas", "histories-compared-across-processes", "histories-compared-across-commit-flavours", "commits-with-8-writes-2-owners-and-a-deletion", "distinct-relaxed-store-orders"},
+		Mandatory:   []string{"replicas", "pool-probes-after-encode-errors", "histories-compared-across-processes", "histories-compared-across-commit-flavours", "commits-with-8-writes-2-owners-and-a-deletion", "distinct-relaxed-store-orders"},
 	})
 	register(&Prop{
 		ID: "C16", Level: "exploration", Run: runC16, Cases: cases(96, 480), MinNonTrivial: 8, Race: true,
